@@ -1,12 +1,14 @@
 """M2 world: the real `asyncio_taskpool.queue_context.Queue` driven one event-loop handle at a time (C20).
 
 Op lines (the same lines go to the Lean driver `qdriver`, where each is one `Q.step`):
-    put x | spawn | join | cancel c | gate c ok|exc | run [k]
+    put x | spawn | join | cancel c | gate c ok|exc | take | run [k]
 `spawn` creates a consumer task `async with queue as item: await <harness gate>`; `gate c ok|exc` ends the body of
 consumer c normally / by exception; `cancel c` is `Task.cancel()`; `join` creates a task awaiting `queue.join()`;
-`run k` executes the k-th ready handle of the loop.
+`take` is the plain `asyncio.Queue` protocol used next to the context manager by code outside every consumer task:
+`item = queue.get_nowait()` (result `empty` if that raises `QueueEmpty`), then `queue.item_processed()` for that item
+(a *hand mark*); `run k` executes the k-th ready handle of the loop.
 
-Only public API of the library is used: `put_nowait`, `async with`, `join`, `qsize`, and an override of `task_done`
+Only public API of the library is used: `put_nowait`, `get_nowait`, `item_processed`, `async with`, `join`, `qsize`, and an override of `task_done`
 in a harness subclass (the context manager reaches `task_done` through `item_processed`, so every marking is seen).
 The unfinished counter is never read: the harness counts puts and successful `task_done` calls itself."""
 import asyncio
@@ -33,6 +35,8 @@ class Impl:
         self.marks = collections.Counter()       # consumer id -> task_done calls made while its task was running
         self.task_ids = {}                       # Task -> consumer id
         self.foreign_marks = 0                   # task_done calls outside any consumer task
+        self.takes = 0                           # items taken with get_nowait() by the op `take` (each is hand-marked once)
+        self.hand_taken = []                     # those items
 
         class Q(Queue):
             def task_done(q):
@@ -126,7 +130,7 @@ class Impl:
 
             async def jn():
                 st["started"] = True
-                st["at_start"] = self.puts - self.exits
+                st["at_start"] = self.puts - self.exits - self.takes
                 await self.q.join()
                 st["done"] = True
                 self.ev.append(f"J{j}")
@@ -144,6 +148,19 @@ class Impl:
                     f.set_exception(Boom())
             else:
                 res = "noop"
+        elif k == "take":
+            try:
+                item = self.q.get_nowait()
+            except asyncio.QueueEmpty:
+                res = "empty"
+            else:
+                self.takes += 1
+                self.hand_taken.append(item)
+                self.ev.append(f"H{item}")
+                try:
+                    self.q.item_processed()
+                except ValueError:
+                    pass                         # recorded by the task_done override
         elif k == "run":
             if not self.loop.stepk(int(toks[1]) if len(toks) > 1 else 0):
                 res = "noop"
@@ -166,7 +183,7 @@ class Impl:
         js = ",".join("D" if t.done() else "P" for t in self.joins)
         ms = ",".join(str(self.marks[c]) for c in range(len(self.cons)))
         s = (f"r={res} | n={self.q.qsize()} u={self.puts - self.td_ok} q={self.loop.nready()} | ev={','.join(self.ev)} | "
-             f"c={','.join(self.phases())} | j={js} | g={self.puts},{self.exits},{self.td_calls},{self.ve} m={ms}")
+             f"c={','.join(self.phases())} | j={js} | g={self.puts},{self.exits},{self.td_calls},{self.ve},{self.takes} m={ms}")
         self.ev.clear()
         return s
 
@@ -174,7 +191,8 @@ class Impl:
 # ------------------------------------------------------------------------------------------------ monitors
 class Monitors:
     """Direct statements of C20 over the real run, evaluated after every op.  They use the harness's own counts
-    (puts, items handed to blocks, block exits seen by the body, `task_done` calls per consumer task), never the model."""
+    (puts, items handed to blocks, block exits seen by the body, items taken by hand with `get_nowait()`, `task_done` calls
+    per consumer task and outside the consumer tasks), never the model."""
 
     def __init__(self, impl):
         self.I = impl
@@ -193,12 +211,16 @@ class Monitors:
     def after(self, step, toks):
         I = self.I
         ph = I.phases()
-        outstanding = I.puts - I.exits           # items put so far whose block has not exited (waiting in the queue or in a block)
+        # items put so far that were neither taken by a block that has exited nor taken and marked by hand: they wait in
+        # the queue or are inside a block
+        outstanding = I.puts - I.exits - I.takes
         # -- no ValueError from task_done
         if I.ve:
             self.fail("task_done-raised-ValueError", step, f"{I.ve} ValueError(s) from task_done()")
-        if I.foreign_marks:
-            self.fail("task_done-outside-consumer", step, "task_done() called outside any consumer task")
+        # -- the only task_done calls outside the consumer tasks are the hand marks: one per item taken by hand
+        if I.foreign_marks != I.takes:
+            self.fail("task_done-outside-consumer", step,
+                      f"{I.foreign_marks} task_done() call(s) outside any consumer task, {I.takes} item(s) taken by hand")
         # -- exactly one mark per taken item, at block exit, on every exit path; none otherwise
         for c, p in enumerate(ph):
             m = I.marks[c]
@@ -209,12 +231,13 @@ class Monitors:
             elif m != 0:
                 where = "inside its block" if p.startswith("B") else "without ever being handed an item"
                 self.fail("mark-without-block-exit", step, f"consumer {c} ({p}) {where}: {m} task_done call(s)")
-        if I.td_calls != I.exits:
-            self.fail("marks-ne-block-exits", step, f"task_done calls={I.td_calls} block exits={I.exits}")
-        # -- every item put is in the queue or was handed to a block: nothing takes an item on the side
-        if I.puts != I.q.qsize() + len(I.took):
+        if I.td_calls != I.exits + I.takes:
+            self.fail("marks-ne-block-exits", step,
+                      f"task_done calls={I.td_calls} block exits={I.exits} hand-taken items={I.takes}")
+        # -- every item put is in the queue, was handed to a block or was taken by hand: nothing else takes an item
+        if I.puts != I.q.qsize() + len(I.took) + I.takes:
             self.fail("item-taken-by-nobody", step,
-                      f"puts={I.puts}, in the queue {I.q.qsize()}, handed to blocks {len(I.took)}")
+                      f"puts={I.puts}, in the queue {I.q.qsize()}, handed to blocks {len(I.took)}, taken by hand {I.takes}")
         # -- a consumer cancelled while waiting marks nothing and removes no item
         for c, p in enumerate(ph):
             before = self.prev_phase[c] if c < len(self.prev_phase) else "N"
@@ -223,7 +246,8 @@ class Monitors:
                     self.fail("cancelled-waiter-disturbed-queue", step,
                               f"consumer {c} cancelled while waiting: qsize {self.prev_qsize}->{I.q.qsize()}, "
                               f"task_done calls {self.prev_td}->{I.td_calls}")
-        # -- join() returns exactly when every item put so far was taken and its block exited
+        # -- join() returns exactly when every item put so far was taken by a block that has exited or was taken and
+        #    marked by hand
         for j, st in I.jstate.items():
             if st["started"] and j not in self.waiting and j not in self.jdone:
                 if st["at_start"] == 0:
@@ -239,8 +263,8 @@ class Monitors:
                     self.jdone.add(j)
                     if j not in self.released:
                         self.fail("join-returned-early", step,
-                                  f"join {j} returned although never since its call all items were taken and exited "
-                                  f"(now puts={I.puts}, block exits={I.exits})")
+                                  f"join {j} returned although never since its call all items were taken and exited / hand-marked "
+                                  f"(now puts={I.puts}, block exits={I.exits}, hand-taken={I.takes})")
         self.prev_phase, self.prev_qsize, self.prev_td = ph, I.q.qsize(), I.td_calls
 
     def at_end(self, step, drained):
@@ -248,7 +272,8 @@ class Monitors:
         if not drained:
             return
         for j in self.released - self.jdone:
-            self.fail("join-not-released", step, f"join {j}: all items put were taken and their blocks exited, join() never returned")
+            self.fail("join-not-released", step,
+                      f"join {j}: all items put were taken and their blocks exited (or they were marked by hand), join() never returned")
 
 
 # ------------------------------------------------------------------------------------------------ generation
@@ -270,14 +295,16 @@ def gen_ops(rng, profile, maxlen):
             return rng.randrange(nc)
         if c < 0.18:
             ops.append(f"put {rng.randint(0, 9)}")
-        elif c < 0.36:
+        elif c < 0.24:
+            ops.append("take")
+        elif c < 0.40:
             ops.append("spawn")
             nc += 1
-        elif c < 0.44:
+        elif c < 0.47:
             ops.append("join")
-        elif c < 0.56:
+        elif c < 0.58:
             ops.append(f"cancel {cid()}")
-        elif c < 0.72:
+        elif c < 0.73:
             ops.append(f"gate {cid()} {'ok' if rng.random() < 0.55 else 'exc'}")
         else:
             for _ in range(rng.randint(1, 4)):
@@ -325,6 +352,7 @@ def execute(ops, winddown=True):
             elif p == "Dcan":
                 kinds["exit:cancelled-while-waiting"] += 1
         taken = len(I.took)
+        kinds["hand-marked"] += I.takes
     finally:
         I.close()
     return {"lines": lines, "obs": obs, "fails": mon.fails, "kinds": kinds, "taken": taken}
